@@ -22,7 +22,8 @@ RULE = (
     "one writer + one reader task on each side of a TLS connection (EasyNetwork AsyncTLSStreamTransport over the real asyncio socket adapter on SimSocket); "
     "peer = independent stdlib ssl engine in shape eager | write-then-read, or a second AsyncTLSStreamTransport (mirror); TLS 1.2/1.3, both roles; "
     "writes of 1 byte .. 3 records via send_all / send_all_from_iterable, each carrying a unique 16-byte marker; cipher-text fragmentation down to 1 byte, "
-    "per-fragment delays, link capacity 2 KiB .. 1 MiB per direction, short writes, selector hold/reorder; non-trivial = a fault kind fired and >= 1 write completed"
+    "per-fragment delays, link capacity 2 KiB .. 1 MiB per direction, short writes, selector hold/reorder; aio-duplex-chatty: two library writer tasks with 30-120 small back-to-back writes each "
+    "(continuous hand-over of the transport send lock) + a reader, against a write-then-read peer sending 3-8 bursts of 40-300 KB over 2-16 KiB links; non-trivial = a fault kind fired and >= 1 write completed"
 )
 COMPONENTS_REAL = [
     "easynetwork AsyncTLSStreamTransport",
@@ -36,7 +37,7 @@ ASSUMPTIONS = [
     "cipher-text content is not reproducible (OpenSSL RNG); traces use lengths only",
     "the write-then-read peer is a legal TLS application (blocking-socket style); the EasyNetwork side always has a dedicated reader task, so a deadlock is the transport's",
 ]
-BUDGET = {"quick": 45, "thorough": 540}
+BUDGET = {"quick": 60, "thorough": 600}
 
 OPEN_D9_KEY = "C08/aio/*/deadlock"
 
@@ -54,6 +55,22 @@ def _gen_writes(world: World, side: str, big_ok: bool) -> list[dict]:
             cls = 4  # "huge" (beyond the 256 KiB protocol buffer + link capacity) only in a third of the draws: it costs ms
         size = [1, 1 + world.choose("sz", 64), 200 + world.choose("sz", 3000), 16384 + world.choose("sz", 100) - 50, 20000 + world.choose("sz", 30000), 300000 + world.choose("sz", 200000)][cls]
         out.append({"size": size, "iter": world.choose(f"{side}.iter", 3), "gap": world.choose(f"{side}.gap", 3)})
+    return out
+
+
+def _gen_writes_chatty(world: World, side: str, peer: bool) -> list[dict]:
+    """many writes in a row: the library's writers hand the transport send lock over again and again while the reader
+    keeps coming back for more (reaches the hand-off window of the lock: released, next waiter not yet resumed); the peer
+    writes bursts larger than the link so that a write-then-read peer stops reading until the library has read"""
+    out = []
+    if peer:
+        for _ in range(3 + world.choose(f"{side}.chatty.n", 6)):
+            size = [150000, 40000, 300000][world.choose(f"{side}.chatty.size", 3)] + world.choose("sz", 1000)
+            out.append({"size": size, "iter": 0, "gap": world.choose(f"{side}.gap", 4)})
+    else:
+        for _ in range(30 + world.choose(f"{side}.chatty.n", 90)):
+            size = [500, 100, 3000, 17][world.choose(f"{side}.chatty.size", 4)] + world.choose("sz", 200)
+            out.append({"size": size, "iter": world.choose(f"{side}.iter", 3), "gap": [0, -1, 0, 1][world.choose(f"{side}.gap", 4)]})
     return out
 
 
@@ -88,15 +105,15 @@ def _parse_records(wire: bytes) -> bool:
     return pos == len(wire)
 
 
-def _h_aio(world: World) -> None:
+def _h_aio(world: World, force_chatty: bool = False) -> None:
     seed16 = world.choose("markerseed", 1 << 16)
     version = world.pick("version", ["1.3", "1.2"])
     lib_server = bool(world.choose("lib_server", 2))
-    shape = world.pick("shape", ["eager", "wtr", "mirror"])
+    shape = world.pick("shape", ["wtr", "wtr", "wtr", "mirror"] if force_chatty else ["eager", "wtr", "mirror"])
     caps = [1 << 20, 65536, 16384, 4096, 2048]
     big = 4 << 20
     # a third of the runs are "calm": no fragmentation, delay, back-pressure or selector perturbation (exact baseline)
-    calm = world.choose("swarm", 3) == 0
+    calm = (not force_chatty) and world.choose("swarm", 3) == 0
     cap_l2p = 1 << 20 if calm else caps[world.choose("cap_l2p", len(caps))]
     cap_p2l = 1 << 20 if calm else caps[world.choose("cap_p2l", len(caps))]
     big_ok = True
@@ -106,6 +123,15 @@ def _h_aio(world: World) -> None:
     # plaintext can be attributed: it must be a merge of the two writers' sequences of whole writes)
     two_writers = world.choose("two_writers", 3) == 2
     a2_writes = _gen_writes(world, "A2", big_ok) if two_writers else []
+    chatty = force_chatty or ((not calm) and world.choose("chatty", 5) == 4)
+    if chatty:
+        two_writers = True
+        a_writes = _gen_writes_chatty(world, "A", False)
+        a2_writes = _gen_writes_chatty(world, "A2", False)
+        b_writes = _gen_writes_chatty(world, "B", True)
+        cap_l2p = [2048, 4096, 16384][world.choose("chatty.cap_l2p", 3)]
+        cap_p2l = [4096, 2048, 16384][world.choose("chatty.cap_p2l", 3)]
+        world.probe("chatty")
     if two_writers:
         for w in a_writes + a2_writes:
             w["size"] = max(w["size"], 17)
@@ -141,7 +167,7 @@ def _h_aio(world: World) -> None:
         def after_hs() -> None:
             t = 0.0
             for i, w in enumerate(b_writes):
-                t += w["gap"] / 64.0
+                t += max(w["gap"], 0) / 64.0
                 world.after(t, lambda i=i: peer.write(B[i]))  # type: ignore[union-attr]
 
         peer.on_handshake_done = after_hs
@@ -149,7 +175,7 @@ def _h_aio(world: World) -> None:
     async def writer(tls: AsyncTLSStreamTransport, writes: list[dict], payloads: list[bytes], name: str) -> None:
         for w, p in zip(writes, payloads):
             if w["gap"]:
-                await asyncio.sleep(w["gap"] / 64.0)
+                await asyncio.sleep(max(w["gap"], 0) / 64.0)
             if w["iter"]:
                 await tls.send_all_from_iterable(_split(seed16, p, w["iter"]))
             else:
@@ -174,6 +200,7 @@ def _h_aio(world: World) -> None:
 
     bufsize = world.pick("bufsize", [65536, 1, 100, 4096, 16384])
     into = bool(world.choose("into", 2))
+    world.notes.update(bufsize=bufsize, into=into, chatty=chatty)
 
     async def side(sock, server_side: bool, writes, payloads, total_in: int, sink: bytearray, name: str) -> None:
         tr = await backend.wrap_stream_socket(sock)
@@ -428,5 +455,6 @@ def _h_cancelled_writer(world: World) -> None:
 HARNESSES = [
     Harness("aio-cancelled-writer", _h_cancelled_writer, weight=1, wall_limit=180.0),
     Harness("aio-duplex", _h_aio, weight=3, wall_limit=180.0),
+    Harness("aio-duplex-chatty", lambda w: _h_aio(w, True), weight=3, wall_limit=180.0),
     Harness("sync-sequential", _h_sync, weight=1, wall_limit=180.0),
 ]
